@@ -94,7 +94,7 @@ claimed["C15"] = dict(
    text="Static guard and dataflow rules on the schedule generator decide, for all histories and limits, the memory bound clause: the working cache grows only "
         "under a strict len(cache) < maxMemory test on the value appended to or right after a one-element removal, and every scheduled position is read from that "
         "cache; the ordering clause: each row is sorted after its last append; and three conditions of completeness: recorded deletions are sorted ascending before de-twinning, "
-        "every recorded root state has the block's deletions applied, the TTL table is recomputed before it is read, tree/branch detection with a discarded error is applied to a tracked position only behind an exact existence test, and generating a schedule never writes through a recorded list or an alias of it. That positions are the right insertion slots and uniqueness are not decided.",
+        "every recorded root state has the block's deletions applied, the TTL table is recomputed before it is read, tree/branch detection with a discarded error is applied to a tracked position only behind an exact existence test, generating a schedule never writes through a recorded list or an alias of it, and no allocation is sized by the memory limit. That positions are the right insertion slots and uniqueness are not decided.",
    ref="DESIGN.md 5/C15, engine E2",
    technique="static guard analysis on SSA values, value-web dataflow, must-pass-through rules and order-class dataflow (taint to requires-sorted sinks) on go/ssa (custom analyzer)")
 claimed["C01"] = dict(
@@ -192,7 +192,7 @@ m = {
               "kind_free_text": "repository-specific static analyzer: go/packages + go/types + go/ssa + VTA/CHA call graph; path/dominance rules, lockset, slice-ownership abstract interpretation, flow- and context-sensitive order-class and coordinate-layout abstract interpretation, io discipline"}],
  "checks": checks,
  "not_applicable": na,
- "notes": "All checks are static (no utreexo code is executed). Nineteen genuine defects reported by the rules on the pinned tree were repaired in /repo by 'fix:' commits and two are recorded as known findings (F1: C10, F2: C08) because no small repair passes the unedited suite / exists; see known_findings.json and DESIGN.md section 6. The independently seeded defects are kept under seeded/ (DESIGN.md section 10); those a rule reports are re-applied as self-test variants by every thorough run.",
+ "notes": "All checks are static (no utreexo code is executed). Twenty genuine defects reported by the rules on the pinned tree were repaired in /repo by 'fix:' commits and two are recorded as known findings (F1: C10, F2: C08) because no small repair passes the unedited suite / exists; see known_findings.json and DESIGN.md section 6. The independently seeded defects are kept under seeded/ (DESIGN.md section 10); those a rule reports are re-applied as self-test variants by every thorough run.",
 }
 json.dump(m, open(os.path.join(V, "MANIFEST.json"), "w"), indent=1)
 print("checks:", [c["property_id"] for c in checks], "not_applicable:", [n["property_id"] for n in na])
